@@ -1,0 +1,22 @@
+//go:build verif
+// +build verif
+
+package core
+
+import "com.tuntun.rangers/node/src/middleware/types"
+
+// Verification hooks for the group chain (build tag verif only): thin exports of
+// unexported entry points; no behaviour of their own.
+
+// VerifGroupRemoveFromAncestor removes every group above commonAncestor exactly as the
+// group fork switch does (groupChainFork.triggerOnChain -> removeFromCommonAncestor).
+func VerifGroupRemoveFromAncestor(commonAncestor *types.Group) {
+	groupChainImpl.removeFromCommonAncestor(commonAncestor)
+}
+
+// VerifGroupSetMemory sets the in-memory mirror (count, last group) of the group chain
+// object.  Used only to rebuild the post-boot image of the object between histories.
+func VerifGroupSetMemory(count uint64, last *types.Group) {
+	groupChainImpl.count = count
+	groupChainImpl.lastGroup = last
+}
